@@ -97,7 +97,7 @@ def run_exe(exe, stdin_bytes, cpu=10, wall=120):
     return o
 
 
-def compare_compiled(base, obs):
+def compare_compiled(base, obs, ref_err=''):
     """base: RunObs of `hyeong run -O0`; obs: RunObs of the compiled program. -> None | reason."""
     if base.kind in ('wall', 'cpu', 'crash', 'noheader', 'other') or obs.kind == 'wall':
         return 'INCONCLUSIVE base=%s compiled=%s' % (base.kind, obs.kind)
@@ -106,7 +106,8 @@ def compare_compiled(base, obs):
             return 'interpreter stops with an encoding error, compiled program ends with %s (rc=%s)' % (obs.kind, obs.rc)
         if 'unwrap' not in obs.proc.errs() and 'None' not in obs.proc.errs():
             return 'compiled program stopped abnormally for another reason: %s' % C.clip(obs.proc.errs(), 300)
-        bp = base.err.split('[error]')[0]
+        from .progcheck import split_diag
+        bp = split_diag(base.err, ref_err)[0]
         if not base.out.startswith(obs.out):
             return 'stdout before the abnormal stop is not a prefix of the interpreter text'
         cand = obs.err
